@@ -17,6 +17,7 @@ import (
 	"encoding/json"
 	"flag"
 	"fmt"
+	"os"
 	"strconv"
 	"strings"
 	"sync"
@@ -54,6 +55,8 @@ type Case struct {
 	TTLms   int64    `json:"ttlms,omitempty"`
 	Keys    []KeyTTL `json:"keys,omitempty"`
 	Callers int      `json:"callers,omitempty"`
+	Arr     []string `json:"arr,omitempty"`  // c09-mget: per key of the MGET: hit | pend | miss
+	Fail    string   `json:"fail,omitempty"` // c09-mget: abortcmd | abortpttl | experr | kill | ctx
 }
 
 func genCase(r *gen.Rand, i int) any {
@@ -66,7 +69,7 @@ func genCase(r *gen.Rand, i int) any {
 		kinds = append(kinds, "c07", "c07", "c07")
 	}
 	if o == "all" || o == "c09" {
-		kinds = append(kinds, "c09-share", "c09-share", "c09-kill", "c09-abort")
+		kinds = append(kinds, "c09-share", "c09-share", "c09-kill", "c09-abort", "c09-mget", "c09-mget", "c09-mget")
 	}
 	c := Case{Kind: gen.Pick(r, kinds), Seed: r.U64()}
 	c.Adapter = r.Chance(1, 4)
@@ -101,6 +104,24 @@ func genCase(r *gen.Rand, i int) any {
 			}
 			c.Keys = append(c.Keys, k)
 		}
+	case "c09-mget":
+		// a partial MGET (every arrangement of hit / pending flight of another caller / miss over 2-3 keys, at
+		// least one miss) whose rewritten request is made to fail in one of five ways
+		c.Mux = -1
+		for {
+			n := r.Range(2, 3)
+			c.Arr = c.Arr[:0]
+			miss := false
+			for j := 0; j < n; j++ {
+				st := gen.Pick(r, []string{"hit", "pend", "miss", "miss"})
+				c.Arr = append(c.Arr, st)
+				miss = miss || st == "miss"
+			}
+			if miss {
+				break
+			}
+		}
+		c.Fail = gen.Pick(r, []string{"abortcmd", "abortpttl", "experr", "kill", "ctx", "ctx"})
 	default: // c09
 		c.Mux = gen.Pick(r, []int{-1, -1, 2})
 		c.Callers = r.Range(2, 8)
@@ -882,6 +903,336 @@ func runC09(c Case) (res obs.Result) {
 	return
 }
 
+
+// ---------------------------------------------------------------- C09: partial MGET whose rewritten request fails
+
+func runC09MGet(c Case) (res obs.Result) {
+	res.Site, res.Class = "pipe.go:doCacheMGet", "mget-failure-cancel"
+	s := fakeredis.New()
+	n := len(c.Arr)
+	keys := make([]string, n)
+	var hits, pends, misses []string
+	for i := range keys {
+		keys[i] = fmt.Sprintf("m%d", i)
+		s.Lock()
+		s.DB[keys[i]] = &fakeredis.Item{Kind: "string", Str: "v:" + keys[i]}
+		s.Unlock()
+		switch c.Arr[i] {
+		case "hit":
+			hits = append(hits, keys[i])
+		case "pend":
+			pends = append(pends, keys[i])
+		default:
+			misses = append(misses, keys[i])
+		}
+	}
+	holdF := csc.NewHold(pends)  // keeps the other caller's request in flight
+	holdM := csc.NewHold(misses) // keeps the MGET's own request in flight
+	var injected atomic.Bool
+	s.Fault = func(cn *fakeredis.Conn, cseq int, argv []string) fakeredis.Action {
+		holdF.Fault(cn, cseq, argv)
+		holdM.Fault(cn, cseq, argv)
+		reject := false
+		switch c.Fail {
+		case "abortcmd":
+			reject = argv[0] == "MGET" && cn.CscInMulti()
+		case "abortpttl":
+			reject = argv[0] == "PTTL" && len(argv) == 2 && argv[1] == misses[0] && cn.CscInMulti()
+		}
+		if reject && injected.CompareAndSwap(false, true) {
+			cn.CscPoison()
+			v := fakeredis.Error("ERR injected")
+			return fakeredis.Action{Override: &v}
+		}
+		return fakeredis.Action{}
+	}
+	if c.Fail == "experr" {
+		mg := s.CscHandler("MGET")
+		s.Handle("MGET", func(cn *fakeredis.Conn, a []string) fakeredis.V {
+			if injected.CompareAndSwap(false, true) {
+				return fakeredis.Error("ERR failure at execution time")
+			}
+			return mg(cn, a)
+		})
+	}
+	rec := csc.NewRecorder(tick)
+	A, err := csc.SingleClient(s, -1, false, false, func(o *rueidis.ClientOption) { o.NewCacheStoreFn = rec.Store })
+	if err != nil {
+		res.Oracle = "harness: " + err.Error()
+		return
+	}
+	defer A.Close()
+	defer holdF.Release()
+	defer holdM.Release()
+	bg, cancelAll := context.WithTimeout(context.Background(), 40*time.Second)
+	defer cancelAll()
+	harness := func(msg string) obs.Result {
+		res.Oracle, res.Class = "harness: "+msg, "harness"
+		return res
+	}
+	// 1. hits
+	for _, k := range hits {
+		if e := A.DoCache(bg, cacheable(A, k, false), time.Hour).Error(); e != nil {
+			return harness("warm-up: " + e.Error())
+		}
+	}
+	// 2. the other caller's request, held in flight
+	type multiOut struct {
+		vals []string
+		errs []error
+	}
+	foreignCh := make(chan multiOut, 1)
+	if len(pends) > 0 {
+		var cts []rueidis.CacheableTTL
+		for _, k := range pends {
+			cts = append(cts, rueidis.CT(cacheable(A, k, false), time.Hour))
+		}
+		go func() {
+			var o multiOut
+			for _, r := range A.DoMultiCache(bg, cts...) {
+				v, e := r.ToString()
+				o.vals, o.errs = append(o.vals, v), append(o.errs, e)
+			}
+			foreignCh <- o
+		}()
+		if !holdF.WaitSignals(1, 20*time.Second) {
+			return harness("the other caller's request did not reach the server")
+		}
+	}
+	// 3. the MGET
+	mark := rec.Len()
+	ctxM, cancelM := context.WithCancel(bg) // "ctx": the caller gives up (cancelM) once the waiters are in place
+	defer cancelM()
+	type oneOut struct {
+		val string
+		err error
+		arr []rueidis.RedisMessage
+	}
+	mgetCh := make(chan oneOut, 1)
+	go func() {
+		r := A.DoCache(ctxM, A.B().Mget().Key(keys...).Cache(), time.Hour)
+		arr, e := r.ToArray()
+		mgetCh <- oneOut{err: e, arr: arr}
+	}()
+	flightsOf := func(evs []csc.StoreEvent) (out []csc.StoreEvent) {
+		for _, e := range evs {
+			if e.Op == "flight" {
+				out = append(out, e)
+			}
+		}
+		return
+	}
+	if !rec.WaitFor(mark, 20*time.Second, func(evs []csc.StoreEvent) bool { return len(flightsOf(evs)) >= n }) {
+		return harness("the MGET did not look its keys up")
+	}
+	for i, e := range flightsOf(rec.Since(mark))[:n] {
+		want := map[string]string{"hit": "hit", "pend": "wait", "miss": "miss"}[c.Arr[i]]
+		if e.Key != keys[i] || e.Kind != want {
+			return harness(fmt.Sprintf("lookup %d of the MGET: key %s answered %s, expected %s %s", i, e.Key, e.Kind, keys[i], want))
+		}
+	}
+	// 4. a waiter on the MGET's own flight, and one on the other caller's flight
+	getAsync := func(k string, ctx context.Context) chan oneOut {
+		ch := make(chan oneOut, 1)
+		go func() {
+			v, e := A.DoCache(ctx, cacheable(A, k, false), time.Hour).ToString()
+			ch <- oneOut{val: v, err: e}
+		}()
+		return ch
+	}
+	waitKind := func(mk int, k, kind string) bool {
+		return rec.WaitFor(mk, 20*time.Second, func(evs []csc.StoreEvent) bool {
+			for _, e := range flightsOf(evs) {
+				if e.Key == k {
+					return true
+				}
+			}
+			return false
+		}) && func() bool {
+			for _, e := range flightsOf(rec.Since(mk)) {
+				if e.Key == k {
+					return e.Kind == kind
+				}
+			}
+			return false
+		}()
+	}
+	mk2 := rec.Len()
+	ownWaiter := getAsync(misses[0], bg)
+	if !waitKind(mk2, misses[0], "wait") {
+		return harness("the reader of " + misses[0] + " did not wait on the MGET's flight")
+	}
+	var foreignWaiter chan oneOut
+	if len(pends) > 0 {
+		mk3 := rec.Len()
+		foreignWaiter = getAsync(pends[0], bg)
+		if !waitKind(mk3, pends[0], "wait") {
+			return harness("the reader of " + pends[0] + " did not wait on the other caller's flight")
+		}
+	}
+	// 5. make the MGET's request fail
+	switch c.Fail {
+	case "kill":
+		for _, cn := range append(holdF.BlockedConns(), holdM.BlockedConns()...) {
+			cn.Kill()
+		}
+		for _, cn := range s.Conns() {
+			if cn.Tracking {
+				cn.Kill()
+			}
+		}
+		holdF.Release()
+		holdM.Release()
+	case "ctx":
+		// the caller gives up while the replies are held back (a deadline would race with the set-up of the
+		// waiters on a loaded machine; cancelling at this point is the same event for the client)
+		cancelM()
+	default:
+		holdF.Release()
+		holdM.Release()
+	}
+	var mo oneOut
+	select {
+	case mo = <-mgetCh:
+	case <-time.After(15 * time.Second):
+		res.Oracle, res.Class = "the MGET call did not return", "lost-wakeup"
+		return
+	}
+	if mo.err == nil {
+		res.Oracle = fmt.Sprintf("the rewritten request failed (%s) but DoCache(MGET) returned a value of %d elements", c.Fail, len(mo.arr))
+		res.Class = "value-from-failed-request"
+		return
+	}
+	// which flights did the failing call cancel?
+	cancelled := map[string]string{}
+	for _, e := range rec.Since(mark) {
+		if e.Op == "cancel" {
+			cancelled[e.Key] = e.Err
+		}
+	}
+	if c.Fail != "kill" && os.Getenv("CSC_NO_RECORDER_ORACLE") == "" { // (the switch exists to exercise the behavioural oracles alone)
+		for _, k := range misses {
+			if _, ok := cancelled[k]; !ok {
+				res.Oracle = fmt.Sprintf("arrangement %v, failure %s: the flight of %s, started by the failing MGET, was not cancelled (cancelled: %v)", c.Arr, c.Fail, k, cancelled)
+				return
+			}
+		}
+		for k := range cancelled {
+			own := false
+			for _, m := range misses {
+				own = own || m == k
+			}
+			if !own {
+				res.Oracle = fmt.Sprintf("arrangement %v, failure %s: the failing MGET cancelled the flight of %s, which it did not start (cancelled: %v)", c.Arr, c.Fail, k, cancelled)
+				res.Class = "foreign-flight-cancelled"
+				return
+			}
+		}
+	}
+	// waiters of the MGET's own flight get its error, promptly
+	select {
+	case wo := <-ownWaiter:
+		if wo.err == nil {
+			res.Oracle = fmt.Sprintf("the reader that waited on the failed flight of %s got the value %q", misses[0], wo.val)
+			res.Class = "value-from-failed-request"
+			return
+		}
+	case <-time.After(5 * time.Second):
+		res.Oracle = fmt.Sprintf("arrangement %v, failure %s: the reader waiting on the failed flight of %s was not woken", c.Arr, c.Fail, misses[0])
+		res.Class = "lost-wakeup"
+		return
+	}
+	// ctx: the other caller's request is still in flight and must stay the only one
+	if c.Fail == "ctx" && len(pends) > 0 {
+		mk4 := rec.Len()
+		late := getAsync(pends[0], bg)
+		if !rec.WaitFor(mk4, 20*time.Second, func(evs []csc.StoreEvent) bool { return len(flightsOf(evs)) >= 1 }) {
+			return harness("late reader did not look up")
+		}
+		if k := flightsOf(rec.Since(mk4))[0].Kind; k != "wait" {
+			res.Oracle = fmt.Sprintf("arrangement %v: after the MGET was abandoned, a reader of %s (still being fetched by another caller) was answered %q instead of waiting on that flight", c.Arr, pends[0], k)
+			res.Class = "foreign-flight-cancelled"
+			return
+		}
+		holdF.Release()
+		holdM.Release()
+		select {
+		case lo := <-late:
+			if lo.err != nil || lo.val != "v:"+pends[0] {
+				res.Oracle = fmt.Sprintf("late reader of %s: %q, %v", pends[0], lo.val, lo.err)
+				res.Class = "foreign-flight-cancelled"
+				return
+			}
+		case <-time.After(10 * time.Second):
+			res.Oracle, res.Class = "late reader never woken", "lost-wakeup"
+			return
+		}
+	}
+	holdF.Release()
+	holdM.Release()
+	if len(pends) > 0 && c.Fail != "kill" {
+		select {
+		case fo := <-foreignCh:
+			for i, e := range fo.errs {
+				if e != nil || fo.vals[i] != "v:"+pends[i] {
+					res.Oracle = fmt.Sprintf("the other caller's request for %s, which did not fail, ended with %q, %v", pends[i], fo.vals[i], e)
+					res.Class = "foreign-flight-cancelled"
+					return
+				}
+			}
+		case <-time.After(10 * time.Second):
+			res.Oracle, res.Class = "the other caller never returned", "lost-wakeup"
+			return
+		}
+		select {
+		case wo := <-foreignWaiter:
+			if wo.err != nil || wo.val != "v:"+pends[0] {
+				res.Oracle = fmt.Sprintf("a reader waiting on the other caller's flight of %s got %q, %v", pends[0], wo.val, wo.err)
+				res.Class = "foreign-flight-cancelled"
+				return
+			}
+		case <-time.After(10 * time.Second):
+			res.Oracle, res.Class = "reader of the other caller's flight never woken", "lost-wakeup"
+			return
+		}
+		for _, k := range pends {
+			if g := countGets(s, k); g != 1 {
+				res.Oracle = fmt.Sprintf("key %s, fetched by another caller throughout, was requested %d times", k, g)
+				res.Class = "foreign-flight-cancelled"
+				return
+			}
+		}
+	}
+	// nothing of the failed request stays pending or cached: a later read of every missed key fetches again
+	for _, k := range misses {
+		before := countGets(s, k)
+		var v string
+		var e error
+		for i := 0; i < 300; i++ {
+			ctx, cancel := context.WithTimeout(bg, 3*time.Second)
+			v, e = A.DoCache(ctx, cacheable(A, k, false), time.Hour).ToString()
+			cancel()
+			if e == nil || c.Fail != "kill" {
+				break
+			}
+			time.Sleep(2 * time.Millisecond)
+		}
+		if e != nil || v != "v:"+k {
+			res.Oracle = fmt.Sprintf("arrangement %v, failure %s: a later read of %s ended with %q, %v (the failed flight was neither woken nor removed)", c.Arr, c.Fail, k, v, e)
+			res.Class = "dead-flight"
+			return
+		}
+		if c.Fail != "ctx" && countGets(s, k) <= before {
+			res.Oracle = fmt.Sprintf("a later read of %s after the failed request did not reach the server", k)
+			res.Class = "cached-failure"
+			return
+		}
+	}
+	res.Obs = map[string]any{"arrangement": c.Arr, "fail": c.Fail, "error": mo.err.Error(), "cancelled": cancelled}
+	res.Nontrivial = true
+	return
+}
+
 func run(ci any) (res obs.Result) {
 	c := ci.(Case)
 	defer func() {
@@ -894,6 +1245,8 @@ func run(ci any) (res obs.Result) {
 		res.Sig = string(raw)
 	}()
 	switch c.Kind {
+	case "c09-mget":
+		return runC09MGet(c)
 	case "c06-inval":
 		return runC06Inval(c)
 	case "c06-disc":
